@@ -30,7 +30,7 @@ func (node *tagCycleNode) writeValue(ctx *ExecutionContext, writer TemplateWrite
 		var err *Error
 		val, err = ApplyFilter("escape", val, nil)
 		if err != nil {
-			return err
+			return err.updateFromTokenIfNeeded(ctx.template, node.position)
 		}
 	}
 	writer.WriteString(val.String())
